@@ -952,7 +952,12 @@ def lemma_uspace_loops(ctx):
                       z3.And(w.t == r.t, r.t >= 1, fr.locals[l_written].v.t == w0.t + r.t))
         elif p.status == "return":
             if is_ok(p.ret):
-                ctx.lemma(eng, "C05: copy_range_uspace returns Ok only with every requested byte copied", p.pc, p.ret.fields[0].t == n.t)
+                # the contract copy_file_offset's callers rely on (same as copy_file_range's): everything, or -- only when a read
+                # returned 0, i.e. at end of file -- what was copied so far
+                eof = [e for e in rd if isinstance(e.ret, IntV)]
+                at_eof = z3.Or(*[e.ret.t == 0 for e in eof]) if eof else z3.BoolVal(False)
+                ctx.lemma(eng, "C05: copy_range_uspace returns Ok(k) with k = the whole request, or -- only after a zero-length read, i.e. at end of file -- the bytes copied so far",
+                          p.pc, z3.Or(p.ret.fields[0].t == n.t, z3.And(at_eof, p.ret.fields[0].t == w0.t)))
                 for e in rd + wr:
                     if is_errev(e):
                         ctx.fail("C04/C05: a failed pread/pwrite makes copy_range_uspace fail", str(trace_names(p)))
@@ -962,8 +967,9 @@ def lemma_uspace_loops(ctx):
                 if not why:
                     r = rd[0].ret if rd else None
                     w = wr[0].ret if wr else None
-                    claim = (r.t == 0) if (r is not None and w is None) else ((w.t < r.t) if (r is not None and w is not None) else z3.BoolVal(False))
-                    ctx.lemma(eng, "C05: copy_range_uspace fails without a failed call only on premature EOF or a short write", p.pc, claim)
+                    claim = (w.t < r.t) if (r is not None and w is not None) else z3.BoolVal(False)
+                    ctx.lemma(eng, "C05/C06: copy_range_uspace fails without a failed call only on a short write (end of file is a short count, as for the kernel copy: both drivers must agree)",
+                              p.pc, claim, key="uspace-range:eof-is-an-error")
     (ctx.passed if back else ctx.fail)("witness: copy_range_uspace loop body", "")
     # ---------------- copy_bytes_uspace
     eng = ctx.engine("libfs", loop_bound=2)
